@@ -341,6 +341,21 @@ impl C17 {
     out.eval("year");
     out.nontrivial("year", &[y]);
     let k = [("sy", y)];
+    // once per run: which of the twelve spirits are Yellow-path (auspicious) and which Black-path, by name
+    if y == 2000 {
+      use tyme4rs::tyme::culture::star::twelve::TwelveStar;
+      use tyme4rs::tyme::Culture;
+      let yellow = ["青龙", "明堂", "金匮", "天德", "玉堂", "司命"];
+      let order = ["青龙", "明堂", "天刑", "朱雀", "金匮", "天德", "白虎", "玉堂", "天牢", "玄武", "司命", "勾陈"];
+      for (i, nm) in order.iter().enumerate() {
+        let s = TwelveStar::from_index(i as isize);
+        let want = if yellow.contains(nm) { ("黄道", "吉") } else { ("黑道", "凶") };
+        let got = (s.get_ecliptic().get_name(), s.get_ecliptic().get_luck().get_name());
+        if s.get_name() != *nm || got.0 != want.0 || got.1 != want.1 {
+          out.fail(env, viol("year", "yellow_black_path_class", case, &[("spirit", i as i64)], format!("twelve spirit #{} {}", i, nm), format!("{} {} {}", nm, want.0, want.1), format!("{} {} {}", s.get_name(), got.0, got.1)));
+        }
+      }
+    }
     let e = (1864 - y).rem_euclid(9);
     let ly = LunarYear::from_year(y as isize).get_nine_star().get_index() as i64;
     let sy = SixtyCycleYear::from_year(y as isize).get_nine_star().get_index() as i64;
